@@ -100,7 +100,9 @@ def gen_case(rng):
     # more pointer traffic, no failing calls, positions inside the field
     sp = C.Spec(case)
     fields = [r["name"] for r in case["raws"]] + [f["name"] for f in case["derived"]]
-    ops = [o for o in case["ops"] if o[0] == "l"]
+    # under an open limit a two-input field may have one input auto-closed while the other is being
+    # asked (time(NULL)-dependent, inside one call): no limit in histories with MULTIPLY fields
+    ops = [o for o in case["ops"] if o[0] == "l" and not any(f["kind"] == "M" for f in case["derived"])]
     for _ in range(rng.randint(5, 40)):
         f = rng.choice(fields); e = sp.eof(f); b = sp.bof(f); u = rng.random()
         inside = lambda: rng.randint(min(b, e), max(b, e))
